@@ -31,9 +31,17 @@ def gen_case(rng):
         if i == 0 and rng.random() < 0.5:
             types = ["Decimal", "DateTime"]
         decl, accept, reject = gen.gen_field(rng, "delimited", "f%d" % i, ".", "", types=types)
-        ok = lambda c: storage.ods_encodable(c, ("s",)) and not any(ch in c for ch in "\r\n\t\x00") and not c.endswith(" 00:00:00")
+        if decl["type"] == "DateTime" and rng.random() < 0.3:
+            # the layout Excel itself uses for date/time cells, with a value exactly at midnight among the accepted ones
+            decl = dict(decl, rule="YYYY-MM-DD hh:mm:ss", length="")
+            accept, reject = ["2024-03-02 00:00:00", "1999-12-31 23:59:59", "2000-02-29 12:00:00"], ["2024-03-02", "2023-02-29 00:00:00", "2024-03-02 24:00:00"]
+        has_time = decl["type"] == "DateTime" and any(t in decl["rule"] for t in ("hh", "mm", "ss"))
+        # the Excel-only rule concerns ' 00:00:00' after a date-only layout; midnight under a layout with a time is judged
+        ok = lambda c: storage.ods_encodable(c, ("s",)) and not any(ch in c for ch in "\r\n\t\x00") and (has_time or not c.endswith(" 00:00:00"))
         accept = [c for c in accept if ok(c)]
         reject = [c for c in reject if ok(c)]
+        if has_time and decl["rule"] == "YYYY-MM-DD hh:mm:ss" and "2024-03-02 00:00:00" not in accept:
+            accept.append("2024-03-02 00:00:00")
         if i == nfields - 1:
             accept = [c for c in accept if c != ""]
             reject = [c for c in reject if c != ""]
